@@ -130,6 +130,8 @@ Ltac use_ih :=
     E : ieval_conds _ _ _ _ _ ?a _ _ = Res _ _ _ |- _ => apply IH in E
   | IH : forall v fr g o fr' g', ieval_arms _ _ _ _ v ?a fr g = Res o fr' g' -> extends g g',
     E : ieval_arms _ _ _ _ _ ?a _ _ = Res _ _ _ |- _ => apply IH in E
+  | IH : forall ok xs seen fr g o fr' g', ieval_nargs _ _ _ _ ok xs seen ?a fr g = Res o fr' g' -> extends g g',
+    E : ieval_nargs _ _ _ _ _ _ _ ?a _ _ = Res _ _ _ |- _ => apply IH in E
   | E : cf _ _ _ = Some (_, _) |- _ => apply Hcf in E
   end.
 
@@ -139,11 +141,12 @@ Ltac solve_eq := the_eq ltac:(fun E => repeat brk E); use_ih; fin_ext.
 Lemma ieval_extends_both :
   (forall e, forall fr g o fr' g', ieval cf funs clos fn e fr g = Res o fr' g' -> extends g g') /\
   (forall a, (forall fr g o fr' g', ieval_args cf funs clos fn a fr g = Res o fr' g' -> extends g g') /\
-             (forall v fr g o fr' g', ieval_conds cf funs clos fn v a fr g = Res o fr' g' -> extends g g')) /\
+             (forall v fr g o fr' g', ieval_conds cf funs clos fn v a fr g = Res o fr' g' -> extends g g') /\
+             (forall ok xs seen fr g o fr' g', ieval_nargs cf funs clos fn ok xs seen a fr g = Res o fr' g' -> extends g g')) /\
   (forall m, forall v fr g o fr' g', ieval_arms cf funs clos fn v m fr g = Res o fr' g' -> extends g g').
 Proof.
   apply expr_args_ind; intros;
-    try match goal with H : _ /\ _ |- _ => destruct H end.
+    repeat match goal with H : _ /\ _ |- _ => destruct H end.
   - the_eq ltac:(fun E => inversion E); subst. apply extends_refl.
   - the_eq ltac:(fun E => inversion E); subst. apply extends_refl.
   - (* EBin *)
@@ -176,13 +179,15 @@ Proof.
   - (* ESetProp *) the_eq ltac:(fun E => rewrite ieval_setprop in E). solve_eq.
   - (* EHi *) the_eq ltac:(fun E => rewrite ieval_hi in E). solve_eq.
   - (* EMatch *) the_eq ltac:(fun E => rewrite ieval_match in E). solve_eq.
+  - (* ECallN *) the_eq ltac:(fun E => rewrite ieval_calln in E). solve_eq.
   - (* ANil *)
-    split; intros; [|the_eq ltac:(fun E => rewrite ieval_conds_nil in E)];
+    split; [|split]; intros; [|the_eq ltac:(fun E => rewrite ieval_conds_nil in E)|the_eq ltac:(fun E => rewrite ieval_nargs_nil in E)];
       the_eq ltac:(fun E => inversion E); subst; apply extends_refl.
   - (* ACons *)
-    split; intros.
+    split; [|split]; intros.
     + the_eq ltac:(fun E => rewrite ieval_args_cons in E). solve_eq.
     + the_eq ltac:(fun E => rewrite ieval_conds_cons in E). solve_eq.
+    + the_eq ltac:(fun E => rewrite ieval_nargs_cons in E). solve_eq.
   - (* MNil *) the_eq ltac:(fun E => rewrite ieval_arms_nil in E; inversion E); subst. apply extends_refl.
   - (* MDefault *) the_eq ltac:(fun E => rewrite ieval_arms_default in E). use_ih. assumption.
   - (* MCons *) the_eq ltac:(fun E => rewrite ieval_arms_cons in E). solve_eq.
